@@ -27,7 +27,8 @@ RULE = ("one run = a generated topology (1-3 battery groups of 1-2 batteries beh
         "consistent data streamed every 0.5 s, then 4-14 requests (non-zero, adjust_power true/false) sent one after the other; "
         "every individual set_power call gets an outcome from {ok, out_of_range, api_error, unexpected, no reply before the "
         "timeout}; fault-free and faulty configurations are separate run profiles; non-trivial = at least one call failed; "
-        "distinct = abstract digest of (set_power outcome, component) / result-kind sequence")
+        "distinct = abstract digest of (set_power outcome, component) / result-kind sequence"
+        " API timeout drawn from 0.5 / 1 / 1.5 / 2 s.")
 QUICK_RUNS = 1200
 THOROUGH_RUNS = 80_000
 CHUNK = 10
